@@ -143,7 +143,11 @@ def latch_part(ctx):
            expect_violated=["Conservation"], count=False)
     out = os.path.join(ctx.work, "latchrace.ndjson")
     rounds, per = (6, 60000) if not ctx.thorough else (16, 150000)
-    ctx.harness(["c19-latchrace", "-rounds", str(rounds), "-per", str(per), "-out", out], timeout=300)
+    # self-adjusting: a round with too few latches between the writers' accesses is repeated (writers and latcher
+    # also pace each other) until the criterion is met or the wall-clock budget is used up
+    budget_ms, min_latches = (30000 if ctx.thorough else 8000), 30
+    ctx.harness(["c19-latchrace", "-rounds", str(rounds), "-per", str(per), "-out", out,
+                 "-budget-ms", str(budget_ms), "-min-latches", str(min_latches)], timeout=600)
     recs = kit.read_ndjson(out)
     if len(recs) != rounds:
         raise kit.Inconclusive("latch race: %d rounds of %d" % (len(recs), rounds))
@@ -166,8 +170,9 @@ def latch_part(ctx):
                              "latches_that_returned_counts": sum(r["nonempty"] for r in recs)}
     ctx.sample({"latch_race_round": {k: recs[0][k] for k in ("writers", "keys", "capacity", "total", "latches", "nonempty", "lost")}})
     # mandatory stratum: the latches really interleaved with the writers
-    if any(r["nonempty"] < 3 or r["total"] < per for r in recs) or sum(r["nonempty"] for r in recs) < 10 * rounds:
-        raise kit.Inconclusive("latch race did not interleave latches with writers: %s" % ctx.cov["latch_race"])
+    ctx.cov["latch_race"]["rounds_repeated"] = sum(r.get("attempt", 0) for r in recs)
+    if any(r["total"] < per or (r["lost"] == 0 and r["nonempty"] < min_latches) for r in recs):
+        raise kit.Inconclusive("latch race did not interleave latches with writers within %d ms: %s" % (budget_ms, ctx.cov["latch_race"]))
 
 
 # ----------------------------------------------------------------------------- collector
